@@ -512,11 +512,14 @@ pub struct Config {
 	pub salt: u8,
 	pub sync_wal: bool,
 	pub sync_data: bool,
+	/// hook H10: a reindex batch ends after the first index page that brings it to this many entries
+	/// (None: the crate's own limit only)
+	pub reindex_batch: Option<usize>,
 }
 
 impl Config {
 	pub fn new(cols: Vec<ColSpec>) -> Config {
-		Config { cols, salt: 7, sync_wal: true, sync_data: true }
+		Config { cols, salt: 7, sync_wal: true, sync_data: true, reindex_batch: None }
 	}
 	pub fn options(&self, path: &Path) -> Options {
 		let mut o = Options::with_columns(path, self.cols.len() as u8);
@@ -532,11 +535,13 @@ impl Config {
 		o.sync_data = self.sync_data;
 		o.with_background_thread = false;
 		o.always_flush = true;
+		// every open of this configuration goes through here: the knob always matches the configuration in use
+		parity_db::verif::set_reindex_batch(self.reindex_batch.unwrap_or(usize::MAX));
 		o
 	}
 	pub fn to_json(&self) -> J {
 		json!({"cols": self.cols.iter().map(|c| c.to_json()).collect::<Vec<_>>(), "salt": self.salt,
-			"sync_wal": self.sync_wal, "sync_data": self.sync_data})
+			"sync_wal": self.sync_wal, "sync_data": self.sync_data, "reindex_batch": self.reindex_batch})
 	}
 	pub fn from_json(j: &J) -> Config {
 		Config {
@@ -544,6 +549,7 @@ impl Config {
 			salt: j["salt"].as_u64().unwrap_or(7) as u8,
 			sync_wal: j["sync_wal"].as_bool().unwrap_or(true),
 			sync_data: j["sync_data"].as_bool().unwrap_or(true),
+			reindex_batch: j["reindex_batch"].as_u64().map(|x| x as usize),
 		}
 	}
 	pub fn short(&self) -> String {
